@@ -313,8 +313,12 @@ def run(ctx):
     samples = []
     opts = {"fraction": {}, "pfba": {}, "loopless": 0}
     tries = 0
+    corpus = common.load_corpus("C05")
     while ran < n and tries < n * 4 and not ctx.violations:
         batch = [gen_case(rng) for _ in range(min(60, n - ran + 5))]
+        if corpus:
+            batch = [{k: v for k, v in c.items() if not k.startswith("_")} for c in corpus] + batch
+            corpus = []
         tries += len(batch)
         prepare_cases(batch)
         for case in batch:
